@@ -49,7 +49,14 @@ def probe_fixes(ctx: Ctx) -> dict:
     _, r2 = w.apply(("metrics", 0))
     fx717 = r1 is None and r2 is None and any(k.startswith("__splink__bridges_") for k in w.cache.data)
     w.close()
-    return {"fx77": fx77, "fx716": fx716, "fx78": fx78, "fx717": fx717, "graph_metrics_errors": [r1, r2]}
+    # 7.18: overwrite=True over an existing lookup must drop the derived tables
+    w = X.World("duckdb")
+    w.apply(("rtf", "first_name", 1))
+    w.apply(("predict",))
+    w.apply(("rtf_ow", "first_name", 2))
+    fx718 = not any(k.startswith("__splink__df_predict_") for k in w.cache.data)
+    w.close()
+    return {"fx77": fx77, "fx716": fx716, "fx78": fx78, "fx717": fx717, "fx718": fx718, "graph_metrics_errors": [r1, r2]}
 
 
 # ----------------------------------------------------------------------------------------- histories
@@ -72,12 +79,16 @@ def gen_history(ctx: Ctx, n: int, fixes: dict) -> list[tuple]:
         elif k == "ctf":
             hist.append((k, rng.choice(X.TF_COLS)))
         elif k == "rtf":
-            hist.append((k, rng.choice(X.TF_COLS), rng.randint(1, 3)))
+            c = rng.choice(X.TF_COLS)
+            hist.append((k, c, rng.randint(1, 3)))
+            if rng.random() < 0.5:      # a lookup for every tf column: compare_two_records becomes comparable with a fresh linker
+                hist.append((k, [x for x in X.TF_COLS if x != c][0], rng.randint(1, 3)))
+                hist.append((rng.choice(["predict", "cluster", "em", "fm"]), 0) if rng.random() < 0.7 else ("c2", True))
         elif k == "c2":
             hist.append((k, rng.choice([False, True])))
         else:
             hist.append((k,))
-    return hist
+    return [((o[0],) if o[0] in ("predict", "fm") and len(o) == 2 else o) for o in hist]
 
 
 def run_history(ctx: Ctx, backend: str, hist: list[tuple], fixes: dict, avoid_findings: bool = True, probe_op=None,
@@ -86,6 +97,7 @@ def run_history(ctx: Ctx, backend: str, hist: list[tuple], fixes: dict, avoid_fi
     w = X.World(backend, link=link)
     init = X.coq_init(w.tables, w.version, w.tfcols, w.params, fixes)
     steps, done, raised = [], [], None
+    routes, tf_problems = [], []
     for op in hist:
         if avoid_findings and op[0] == "rtf" and not fixes["fx77"] and "__splink__df_concat_with_tf" in w.cache \
                 and op[1] not in w.registered:
@@ -104,14 +116,24 @@ def run_history(ctx: Ctx, backend: str, hist: list[tuple], fixes: dict, avoid_fi
         if raised:
             done.append(op)
             break
+        if op[0] in ("c2", "fm"):
+            routes.append((len(steps) + (1 if op[0] == "fm" else 0), list(w.last_routes)))
+            if w.tf_problem is not None:
+                tf_problems.append({"step": len(steps), "op": op, **w.tf_problem})
         steps.append((term, w.observe()))
         done.append(op)
-    res = {"backend": backend, "history": done, "raised": raised, "init": init, "steps": steps, "link": link}
+    res = {"backend": backend, "history": done, "raised": raised, "init": init, "steps": steps, "link": link,
+           "routes": routes, "tf_problems": tf_problems}
     if probe_op is not None:
         if probe_op[0] == "sbl" and not link:
             probe_op = ("cluster", 0)
         if link and (probe_op[0] == "multi" or (backend == "sqlite" and probe_op[0] in ("acc_tab", "err_tab"))):
             probe_op = ("sbl", 0)
+        if probe_op[0] in ("c2", "fm") and not set(w.tfcols) <= set(w.registered):
+            # compare_two_records / find_matches depend BY DESIGN on whether concat_with_tf is cached for tf columns without
+            # a cached tf table (documented, warned); with a lookup registered for every tf column they must equal the
+            # fresh linker's whatever ran before
+            probe_op = ("predict",)
     if raised is None:
         a = w.predict_rows()
         f = w.fresh()
@@ -247,6 +269,36 @@ def history_stage(ctx: Ctx, fixes: dict):
                           classify(small))
     ctx.obligation("oracle: predict() equals fresh linker on every generated history",
                    all(r["diff"] is None for r in ok_results))
+    # 2b. term frequencies of new records follow the route cached tf table > select distinct from cached concat_with_tf > NULL
+    n_tf = 0
+    for r in ok_results:
+        for pb in r["tf_problems"][:1]:
+            n_tf += 1
+            if n_tf > 2:
+                continue
+            small = shrink(ctx, r["backend"], r["history"][:pb["step"] + 1], fixes,
+                           lambda q: q.get("raised") is None and bool(q.get("tf_problems")), link=r["link"])
+            ctx.violation("compare_two_records / find_matches_to_new_records: the term frequency of a new record's value is not the "
+                          "one the cached tf table (registered lookup) prescribes - it depends on whether __splink__df_concat_with_tf "
+                          "was cached by earlier operations",
+                          {"case": small, "original_history": r["history"], "backend": r["backend"], "link": r["link"],
+                           "implementation": pb, "specification": "cached tf table first, else select distinct from the cached "
+                                                                  "concat_with_tf, else NULL (EntryPoints.route_priority)"},
+                          {"tf_route": True, **classify(small)})
+    ctx.cov["tf_route_checks"] = sum(len(r["routes"]) for r in ok_results)
+    ctx.obligation("oracle: tf values of new records follow the route priority (recomputed from the real tables)", n_tf == 0)
+    rterms = []
+    for r in ok_results:
+        if r["routes"]:
+            ops = coq_list([t for t, _ in r["steps"]], "op")
+            ob = coq_list([f"({coq_nat(k)}, {coq_list([coq_nat(x) for x in ks], 'nat')})" for k, ks in r["routes"]], "(nat * list nat)")
+            rterms.append(f"({r['init']}, {ops}, {ob})")
+    rbad, rerrs = ctx.eval_cases("C07_routes", X.HEADER, rterms, "routes_ok", shard=60)
+    ctx.obligation("correspondence: the tf route taken (which real table is read) equals EntryPoints.route_priority on the model state",
+                   not rbad and not rerrs, "; ".join(rerrs)[:800])
+    if rbad or rerrs:
+        ctx.violation("tf route of the implementation differs from the model's", {"broken": "C07_routes", "errors": rerrs[:2],
+                                                                                 "cases": rbad[:5]}, found_input=False)
     # 3. model correspondence in Coq
     bad, errs, _ = evaluate(ctx, "C07_x", ok_results)
     ctx.obligation("correspondence: executed names, cache hits and cache content equal the model's at every step; "
@@ -300,6 +352,20 @@ def witness_stage(ctx: Ctx, fixes: dict):
                        "specification": "the second call returns what a fresh linker returns"},
                       {"history_class": "compute_graph_metrics_twice"})
     ctx.expect_known("KF-C07-graph-metrics-twice", not fixes["fx717"], "compute_graph_metrics can be repeated")
+    # (f) 7.18 register_term_frequency_lookup(overwrite=True) with different rows, then predict
+    r = run_history(ctx, "duckdb", [("rtf", "first_name", 1), ("predict",), ("rtf_ow", "first_name", 2), ("predict",)], fixes,
+                    avoid_findings=False)
+    stale = r["diff"] is not None
+    r["guard"] = False
+    bad, errs, _ = evaluate(ctx, "C07_wf", [r])
+    ctx.obligation("witness 7.18: model (variant chosen by the probe) and implementation agree on trace and verdict",
+                   not bad and not errs and stale == (not fixes["fx718"]), "; ".join(errs)[:600])
+    if stale:
+        ctx.violation("register_term_frequency_lookup(..., overwrite=True) with different rows leaves the next predict() stale: the lookup "
+                      "keeps its physical name, so the old __splink__df_predict_<hash> is served from the cache",
+                      {"case": r["history"], "backend": "duckdb", "implementation": r["diff"], "specification": "equal to a fresh linker "
+                       "with the new lookup registered"}, {"history_class": "registerTF_overwrite_predict"})
+    ctx.expect_known("KF-C07-lookup-overwrite-stale", stale, "overwriting a lookup drops the derived tables")
     # a NEW DatabaseAPI on a database that still holds another API's tables (persistent database reopened
     # after the input rows changed): the uid in the hash must keep the old tables from being found
     new_api_same_database(ctx)
@@ -313,6 +379,22 @@ def witness_stage(ctx: Ctx, fixes: dict):
     # InvalidateKeepingResults, theorem C07_invalidate_reflects_new_data_refuted_when_results_are_retained): the mechanism
     # is replayed on the real code by forgetting the cache entries of df_predict before the real invalidate_cache
     retained_results_mechanism(ctx, fixes)
+    # find_matches_to_new_records with the records given by TABLE NAME, the table refilled between searches: the final
+    # pipeline must not be served from the cache (use_cache=False); trace vs model and output vs fresh linker
+    for backend in ("duckdb", "sqlite"):
+        hist = [("predict",), ("fm_tab", 1), ("fm_tab", 2), ("fm_tab", 2), ("fm_tab", 3)]
+        r = run_history(ctx, backend, hist, fixes, avoid_findings=False, probe_op=("fm_tab", 3))
+        r["guard"] = False          # replacing rows of a table Splink reads without invalidate_cache is outside hist_ok
+        bad, errs, _ = evaluate(ctx, "C07_wt", [r]) if not r["raised"] else ([0], [])
+        ctx.count_case(("fm_tab", backend), True, {"scenario": "find_matches_by_table_name_refilled", "backend": backend})
+        okk = r["raised"] is None and r["diff"] is None and not bad and not errs
+        ctx.obligation(f"find_matches_to_new_records by table name, table refilled between searches ({backend})", okk, "; ".join(errs)[:500])
+        if not okk:
+            ctx.violation("find_matches_to_new_records(<table name>) after the table was refilled returns the result of an earlier search "
+                          "(or its cache decisions differ from the model)",
+                          {"case": hist, "backend": backend, "probe_op": ("fm_tab", 3), "implementation": r.get("diff") or r["raised"] or r["steps"],
+                           "specification": diagnose(ctx, r) if bad and not r["raised"] else "equal to a fresh linker searching the same table"},
+                          {"history_class": "find_matches_by_table_name_refilled"})
     # invalidate_cache reflects new data
     r = run_history(ctx, "duckdb", [("predict",), ("chg",), ("predict",)], fixes)
     ctx.obligation("invalidate_cache reflects changed input data (oracle)", r["diff"] is None and r["raised"] is None)
